@@ -19,11 +19,11 @@ impl Property for C11 {
         "C11"
     }
     fn rule(&self) -> &'static str {
-        "case = unconstrained binary minimisation instance, n<=8 (quick) / <=12 (thorough) variables, objective of degree<=4 in any representation (repeated ids inside a monomial, x_i^2 terms, cancelling pairs, several constants) | one refusal condition (active constraint, maximise, non-binary used variable, QUBO term with 3 distinct ids); \
+        "case = unconstrained binary minimisation instance, n<=8 (quick) / <=12 (thorough) variables, objective of degree<=4 in any representation (repeated ids inside a monomial, x_i^2 terms, cancelling pairs, several constants) | one refusal condition (active constraint, maximise, non-binary used variable, QUBO term with 3 or 4 distinct ids, also of degree four with one of them repeated); \
          oracle = objective evaluated exactly on ALL 2^n assignments + multilinear reduction (unique representation); non-trivial = n>=3 and (a monomial with a repeated id or a cancelling pair); distinct = sha256(instance, mode)"
     }
     fn required_labels(&self) -> Vec<String> {
-        ["x^2", "cancel", "deg>2-collapses-to-pair", "refusal=constraint", "refusal=maximize", "refusal=non-binary", "refusal=qubo-3-distinct", "format=pubo", "format=qubo", "regime=general", "regime=dyadic", "removed-constraint-present", "objective-absent", "unused-non-binary-variable", "non-binary-variable-in-removed-constraint", "id=u64::MAX", "objective-absent+refusal", "largest-id-at-word-boundary", "sweep=many-raw-terms", "refusal=constraint-with-zero-function", "shuffled-variable-list"].iter().map(|s| s.to_string()).collect()
+        ["x^2", "cancel", "deg>2-collapses-to-pair", "refusal=constraint", "refusal=maximize", "refusal=non-binary", "refusal=qubo-3-distinct", "refusal=qubo-3-distinct-with-a-repeated-id", "format=pubo", "format=qubo", "regime=general", "regime=dyadic", "removed-constraint-present", "objective-absent", "unused-non-binary-variable", "non-binary-variable-in-removed-constraint", "id=u64::MAX", "objective-absent+refusal", "largest-id-at-word-boundary", "sweep=many-raw-terms", "refusal=constraint-with-zero-function", "shuffled-variable-list"].iter().map(|s| s.to_string()).collect()
     }
     fn cases(&self, tier: Tier) -> usize {
         match tier {
@@ -185,7 +185,26 @@ impl Property for C11 {
         if refusal == 4 {
             // a term with three distinct ids
             if n >= 3 {
-                terms.push((vec![ids[0], ids[1], ids[2]], 1.5));
+                // plain x_a x_b x_c, or one of the three repeated (x_a^2 x_b x_c: degree four, still three distinct
+                // variables), or four distinct ones; members and their order inside the monomial chosen by the tape
+                let mut pool = ids.clone();
+                t.shuffle(&mut pool);
+                let mut m = vec![pool[0], pool[1], pool[2]];
+                match t.choice(4) {
+                    0 => {}
+                    1 | 2 => {
+                        let r = m[t.choice(3)];
+                        m.push(r);
+                        ctx.label("refusal=qubo-3-distinct-with-a-repeated-id");
+                    }
+                    _ => {
+                        if n >= 4 {
+                            m.push(pool[3]);
+                        }
+                    }
+                }
+                t.shuffle(&mut m);
+                terms.push((m, 1.5));
             }
         }
         let cfg = FuncCfg { regime, allow_unset: false, ..FuncCfg::default() };
